@@ -21,6 +21,7 @@ func runC20(c *Check, tier string) {
 	ruleR20b2(c)
 	ruleR20c(c)
 	ruleR20d(c)
+	ruleMemoKeyComplete(c, "R20f", "hashing", "dag", "selection", "cmd", "loading")
 }
 
 // cobraCommands maps the `Use` word of each cobra command to its Run function.
